@@ -189,6 +189,16 @@ pub fn main_with(
     generate: impl Fn(&mut Rng, u64, u64) -> String,
     run: impl Fn(&str) -> (String, String),
 ) {
+    main_with_consts(generate, run, &[])
+}
+
+/// Like [`main_with`], plus `consts`: prints `NAME=value` lines (values of the
+/// constants as the compiled crate has them) for the cross-check with Gen/Consts.v.
+pub fn main_with_consts(
+    generate: impl Fn(&mut Rng, u64, u64) -> String,
+    run: impl Fn(&str) -> (String, String),
+    consts: &[(&str, i128)],
+) {
     let args: Vec<String> = std::env::args().collect();
     let out = std::io::stdout();
     let mut out = std::io::BufWriter::new(out.lock());
@@ -212,6 +222,11 @@ pub fn main_with(
                 }
                 let (i, o) = run(line);
                 writeln!(out, "{line}\t{i}\t{o}").unwrap();
+            }
+        }
+        Some("consts") => {
+            for (k, v) in consts {
+                writeln!(out, "{k}={v}").unwrap();
             }
         }
         _ => {
